@@ -895,6 +895,397 @@ Proof.
   injection Hn as <- <- <-. eexists _, _. split; [exact Hn0|]. cbn [lhas so sn]. split; [exact Hh|]. split; lia.
 Qed.
 
+(* ---- svg / math / xml content ------------------------------------------------------------------------------------------- *)
+(* the template lemmas over a cursor that only satisfies binv (the tag name before it was lower-cased in the buffer) *)
+Lemma btmpl_here c d l p q : cfg_ok c -> binv d (lz l) -> lpos (lz l) <= p -> is_region c d p q ->
+  at_ (zat l p) (tb c) = Ok true /\ tmpl_skip c (zat l p) = Ok (zat l q) /\ p < q <= len d.
+Proof.
+  intros Hc Hi Ha Hreg. destruct (is_region_in _ _ _ _ Hreg) as [Hin Hlt].
+  pose proof Hi as (Hwl & Hlen & _). assert (Hp0 : 0 <= lpos (lz l)) by (destruct Hwl as (_ & ? & _); lia).
+  pose proof Hreg as (_ & Htb & Hpre & _).
+  assert (Hlt0 : 0 < len (tb c)) by (destruct (tb c) as [|x t]; [congruence|rewrite len_cons; pose proof (len_nonneg t); lia]).
+  destruct (bzat_wf d l p Hi ltac:(lia)) as [Hw Hrem].
+  assert (Hpre' : prefixb (tb c) (rem (zat l p)) = true) by (rewrite Hrem; exact Hpre).
+  destruct (tmpl_skip_here c (zat l p) Hc Hw Hpre') as [Hsk Hle].
+  assert (Eq : region_end_here c (zat l p) = q).
+  { eapply is_region_fun; [|exact Hreg]. apply bregion_here; [exact Hi|lia|exact Htb|exact Hpre]. }
+  rewrite Eq in *.
+  split; [rewrite at_rem by (apply Hc || exact Hw); rewrite Hpre'; reflexivity|].
+  split; [exact Hsk|unfold lx_len, zat in *; cbn [lbuf] in *; lia].
+Qed.
+
+Lemma btmpl_at_zat c d l a : cfg_ok c -> tb c <> [] -> binv d (lz l) -> lpos (lz l) <= a <= len d ->
+  tmpl_at c (zat l a) = Ok (prefixb (tb c) (skipz a d)).
+Proof.
+  intros Hc Htb Hi Ha. destruct (bzat_wf d l a Hi Ha) as [Hw Hrem]. unfold tmpl_at. rewrite (has_delims_true c Htb).
+  rewrite at_rem by (apply Hc || exact Hw). rewrite Hrem. reflexivity.
+Qed.
+
+(* one step of the first loop of shiftXML on the remaining input s, in the state (inside a tag, quote, skipped
+   section): the number of bytes moved and the new state; None where the loop ends (NUL / end of input, or "</" +
+   letters that hash to the element's name) *)
+Definition xml_step (raw : Z) (it : bool) (q sk : Z) (s : list Z) : option (Z * bool * Z * Z) :=
+  match s with
+  | [] => None
+  | c :: t =>
+      if c =? 0 then None
+      else if negb (sk =? 0) then
+        if ((sk =? 1) && prefixb [45; 45; 62] s) || ((sk =? 2) && prefixb [93; 93; 62] s) then Some (3, it, q, 0)
+        else if (sk =? 3) && prefixb [63; 62] s then Some (2, it, q, 0)
+        else Some (1, it, q, sk)
+      else if negb (q =? 0) then Some (1, it, (if c =? q then 0 else q), sk)
+      else if it then Some (1, (if c =? 62 then false else it), (if (c =? 34) || (c =? 39) then c else q), sk)
+      else if c =? 60 then
+        if negb (hd 0 t =? 47) then
+          if prefixb [60; 33; 45; 45] s then Some (4, it, q, 1)
+          else if prefixb [60; 33; 91; 67; 68; 65; 84; 65; 91] s then Some (9, it, q, 2)
+          else if hd 0 t =? 63 then Some (2, it, q, 3)
+          else Some (1, negb (hd 0 t =? 33), q, sk)
+        else
+          match to_hash (map lower (letter_run (tl t))) with
+          | Ok h => if h =? raw then None else Some (2 + len (letter_run (tl t)), it, q, sk)
+          | _ => None
+          end
+      else Some (1, it, q, sk)
+  end.
+
+Lemma xml_body_step raw z it q sk s j it' q' sk' : reads z s -> xml_step raw it q sk s = Some (j, it', q', sk') ->
+  xml_body raw (z, it, q, sk) = Ok (Cont (mv z j, it', q', sk')) /\ 1 <= j <= len s.
+Proof.
+  intros Hr H. destruct s as [|c t]; [discriminate|]. unfold xml_step in H.
+  pose proof (len_nonneg t) as Hlt.
+  assert (Hl1 : len (c :: t) = 1 + len t) by (rewrite len_cons; lia).
+  assert (Hpk : pkr z 0 = Ok c) by (apply (reads_pkr z _ 0 c Hr), peekz_cons_0).
+  assert (Hatp : forall pat, nz_list pat -> at_ z pat = Ok (prefixb pat (c :: t))).
+  { intros pat Hnz. destruct Hr as [Hw Hrem]. rewrite at_rem by assumption. rewrite Hrem. reflexivity. }
+  destruct (c =? 0) eqn:E0; [discriminate|].
+  destruct (negb (sk =? 0)) eqn:Esk.
+  { assert (Hb1 : (if sk =? 1 then at_ z [45; 45; 62] else if sk =? 2 then at_ z [93; 93; 62] else Ok false) =
+                  Ok (((sk =? 1) && prefixb [45; 45; 62] (c :: t)) || ((sk =? 2) && prefixb [93; 93; 62] (c :: t)))).
+    { destruct (sk =? 1) eqn:E1; cbn [andb orb].
+      - rewrite Hatp by (repeat constructor; lia).
+        replace (sk =? 2) with false by (symmetry; b2p; apply Z.eqb_neq; lia). cbn [andb]. rewrite orb_false_r. reflexivity.
+      - destruct (sk =? 2); cbn [andb]; [|reflexivity]. apply Hatp; repeat constructor; lia. }
+    assert (Hb2 : (if sk =? 3 then at_ z [63; 62] else Ok false) = Ok ((sk =? 3) && prefixb [63; 62] (c :: t))).
+    { destruct (sk =? 3); cbn [andb]; [|reflexivity]. apply Hatp; repeat constructor; lia. }
+    assert (Hbody : xml_body raw (z, it, q, sk) =
+              (if ((sk =? 1) && prefixb [45; 45; 62] (c :: t)) || ((sk =? 2) && prefixb [93; 93; 62] (c :: t)) then Ok (Cont (mv z 3, it, q, 0))
+               else if (sk =? 3) && prefixb [63; 62] (c :: t) then Ok (Cont (mv z 2, it, q, 0)) else Ok (Cont (mv z 1, it, q, sk)))).
+    { unfold xml_body. rewrite Hpk. cbn [rbind]. rewrite Esk, E0. cbn [negb andb]. rewrite Hb1. cbn [rbind].
+      destruct (((sk =? 1) && prefixb [45; 45; 62] (c :: t)) || ((sk =? 2) && prefixb [93; 93; 62] (c :: t))); [reflexivity|].
+      rewrite Hb2. cbn [rbind]. destruct ((sk =? 3) && prefixb [63; 62] (c :: t)); reflexivity. }
+    rewrite Hbody.
+    destruct (((sk =? 1) && prefixb [45; 45; 62] (c :: t)) || ((sk =? 2) && prefixb [93; 93; 62] (c :: t))) eqn:Ep3.
+    - injection H as <- <- <- <-. split; [reflexivity|].
+      apply orb_true_iff in Ep3. destruct Ep3 as [Ep3|Ep3]; apply andb_true_iff in Ep3; destruct Ep3 as [_ Ep3]; apply prefixb_len in Ep3;
+        unfold len in Ep3 at 1; cbn [length] in Ep3; lia.
+    - destruct ((sk =? 3) && prefixb [63; 62] (c :: t)) eqn:Ep2.
+      + injection H as <- <- <- <-. split; [reflexivity|].
+        apply andb_true_iff in Ep2; destruct Ep2 as [_ Ep2]; apply prefixb_len in Ep2; unfold len in Ep2 at 1; cbn [length] in Ep2; lia.
+      + injection H as <- <- <- <-. split; [reflexivity|lia]. }
+  apply negb_false_iff, Z.eqb_eq in Esk. subst sk.
+  destruct (negb (q =? 0)) eqn:Eq.
+  { injection H as <- <- <- <-. split; [|lia]. unfold xml_body. rewrite Hpk. cbn [rbind Z.eqb negb andb]. rewrite Eq, E0. reflexivity. }
+  apply negb_false_iff, Z.eqb_eq in Eq. subst q.
+  destruct it.
+  { injection H as <- <- <- <-. split; [|lia]. unfold xml_body. rewrite Hpk. cbn [rbind Z.eqb negb andb]. rewrite E0. cbn [negb]. reflexivity. }
+  destruct (c =? 60) eqn:E60.
+  2:{ injection H as <- <- <- <-. split; [|lia]. unfold xml_body. rewrite Hpk. cbn [rbind Z.eqb negb andb]. rewrite E60, E0. reflexivity. }
+  apply Z.eqb_eq in E60. subst c.
+  assert (Hpk1 : pkr z 1 = Ok (hd 0 t)).
+  { destruct t as [|x t1]; cbn [hd].
+    - destruct (reads_end z [60] Hr) as [Hp _]. change (len [60]) with 1 in Hp. unfold pkr. rewrite Hp. reflexivity.
+    - apply (reads_pkr z _ 1 x Hr), peekz_1. }
+  destruct (negb (hd 0 t =? 47)) eqn:E47.
+  { assert (Hbody : xml_body raw (z, false, 0, 0) =
+              (if prefixb [60; 33; 45; 45] (60 :: t) then Ok (Cont (mv z 4, false, 0, 1))
+               else if prefixb [60; 33; 91; 67; 68; 65; 84; 65; 91] (60 :: t) then Ok (Cont (mv z 9, false, 0, 2))
+               else if hd 0 t =? 63 then Ok (Cont (mv z 2, false, 0, 3)) else Ok (Cont (mv z 1, negb (hd 0 t =? 33), 0, 0)))).
+    { unfold xml_body. rewrite Hpk. cbn [rbind Z.eqb Pos.eqb negb andb]. rewrite Hpk1. cbn [rbind]. rewrite E47.
+      rewrite Hatp by (repeat constructor; lia). cbn [rbind]. destruct (prefixb [60; 33; 45; 45] (60 :: t)); [reflexivity|].
+      rewrite Hatp by (repeat constructor; lia). cbn [rbind]. destruct (prefixb [60; 33; 91; 67; 68; 65; 84; 65; 91] (60 :: t)); reflexivity. }
+    rewrite Hbody.
+    destruct (prefixb [60; 33; 45; 45] (60 :: t)) eqn:P4.
+    { injection H as <- <- <- <-. split; [reflexivity|]. apply prefixb_len in P4. unfold len in P4 at 1; cbn [length] in P4. lia. }
+    destruct (prefixb [60; 33; 91; 67; 68; 65; 84; 65; 91] (60 :: t)) eqn:P9.
+    { injection H as <- <- <- <-. split; [reflexivity|]. apply prefixb_len in P9. unfold len in P9 at 1; cbn [length] in P9. lia. }
+    destruct (hd 0 t =? 63) eqn:E63.
+    { injection H as <- <- <- <-. split; [reflexivity|]. destruct t as [|x t1]; [cbn [hd] in E63; discriminate|]. rewrite !len_cons. pose proof (len_nonneg t1). lia. }
+    injection H as <- <- <- <-. split; [reflexivity|lia]. }
+  apply negb_false_iff, Z.eqb_eq in E47.
+  destruct t as [|x t1]; [cbn [hd] in E47; discriminate|]. simpl tl in H. simpl hd in *. subst x.
+  destruct (letter_run_split t1) as (r1 & Et1 & Hlr & Hr1).
+  set (ls := letter_run t1) in *.
+  destruct (to_hash (map lower ls)) as [h| |] eqn:Eh; try discriminate.
+  destruct (h =? raw) eqn:Ehr; [discriminate|].
+  assert (Ej : j = 2 + len ls) by congruence. assert (Eit : it' = false) by congruence. assert (Eq' : q' = 0) by congruence. assert (Esk' : sk' = 0) by congruence.
+  subst j it' q' sk'. clear H.
+  assert (Hlt1 : len t1 = len ls + len r1) by (rewrite Et1 at 1; apply len_app).
+  assert (Hr' : reads z (60 :: 47 :: ls ++ r1)) by (rewrite <- Et1; exact Hr).
+  split; [|rewrite !len_cons; pose proof (len_nonneg ls); pose proof (len_nonneg r1); lia].
+  rewrite (xml_body_endtag raw z ls r1 Hr' Hlr Hr1). rewrite Eh. cbn [rbind]. rewrite Ehr. reflexivity.
+Qed.
+
+(* p is a loop head of shiftXML reached from position a in the given state, over steps where no delimiter starts
+   and over whole regions *)
+Inductive xml_reach (c : cfg) (raw : Z) (d : list Z) : Z -> bool -> Z -> Z -> Z -> Prop :=
+| xr_refl a it q sk : xml_reach c raw d a it q sk a
+| xr_step a it q sk j it' q' sk' p : prefixb (tb c) (skipz a d) = false ->
+    xml_step raw it q sk (skipz a d) = Some (j, it', q', sk') -> xml_reach c raw d (a + j) it' q' sk' p -> xml_reach c raw d a it q sk p
+| xr_region a e it q sk p : is_region c d a e -> xml_reach c raw d e it q sk p -> xml_reach c raw d a it q sk p.
+
+Lemma xml_step_zat raw d l a it q sk j it' q' sk' : binv d (lz l) -> lpos (lz l) <= a <= len d ->
+  xml_step raw it q sk (skipz a d) = Some (j, it', q', sk') ->
+  xml_body raw (zat l a, it, q, sk) = Ok (Cont (zat l (a + j), it', q', sk')) /\ 1 <= j /\ a + j <= len d.
+Proof.
+  intros Hi Ha H. destruct (bzat_wf d l a Hi Ha) as [Hw Hrem].
+  pose proof Hi as (Hwl & _). assert (0 <= a) by (destruct Hwl as (_ & ? & _); lia).
+  destruct (xml_body_step raw (zat l a) it q sk _ j it' q' sk' (conj Hw Hrem) H) as [Hb Hj].
+  rewrite len_skipz in Hj by lia. split; [exact Hb|lia].
+Qed.
+
+Lemma xml_reach_le c raw d l a it q sk p : cfg_ok c -> binv d (lz l) -> lpos (lz l) <= a <= len d ->
+  xml_reach c raw d a it q sk p -> a <= p <= len d.
+Proof.
+  intros Hc Hi Ha H. induction H as [a it q sk|a it q sk j it' q' sk' p Hnp Hst _ IH|a e it q sk p Hreg _ IH]; [lia| |].
+  - destruct (xml_step_zat raw d l a it q sk j it' q' sk' Hi Ha Hst) as (_ & Hj1 & Hj2). specialize (IH ltac:(lia)). lia.
+  - destruct (btmpl_here c d l a e Hc Hi ltac:(lia) Hreg) as (_ & _ & He). specialize (IH ltac:(lia)). lia.
+Qed.
+
+Lemma xreach_done c raw d l p q fuel a it0 q0 sk0 h rh : cfg_ok c -> tb c <> [] -> binv d (lz l) -> is_region c d p q ->
+  lpos (lz l) <= a <= len d -> xml_reach c raw d a it0 q0 sk0 p ->
+  loop fuel (with_tmpl c xml_cur xml_setc (xml_body raw)) (zat l a, it0, q0, sk0, h) = Ok rh ->
+  snd rh = true /\ q <= lpos (sum_cur (fst rh)).
+Proof.
+  intros Hc Htb Hi Hreg Ha Hpath H.
+  destruct (btmpl_here c d l p q Hc Hi ltac:(pose proof (xml_reach_le _ _ _ _ _ _ _ _ _ Hc Hi Ha Hpath); lia) Hreg) as (Hatp & Hskp & Hq).
+  set (I := fun sh : lx * bool * Z * Z * bool =>
+              (snd sh = true /\ samele (lz l) (xml_cur (fst sh)) /\ q <= lpos (xml_cur (fst sh))) \/
+              (exists i it1 q1 sk1, fst sh = (zat l i, it1, q1, sk1) /\ lpos (lz l) <= i <= len d /\ xml_reach c raw d i it1 q1 sk1 p)).
+  refine (with_tmpl_inv2 c xml_cur xml_setc I (fun r : (lx + lx) * bool => snd r = true /\ q <= lpos (sum_cur (fst r)))
+            (xml_body raw) _ _ fuel _ rh _ H).
+  - intros s h1 z' HI Hat Hk. unfold I in *. cbn [fst snd] in *.
+    destruct HI as [(_ & Hs & Hqs)|(i & it1 & q1 & sk1 & -> & Hi0 & Hp)].
+    + left. split; [reflexivity|]. pose proof (tmpl_skip_run _ _ _ Hk) as Hkr. unfold xml_setc, xml_cur in *. cbn [fst snd] in *.
+      split; [eapply samele_trans; eauto|destruct Hkr; lia].
+    + unfold xml_cur, xml_setc in *. cbn [fst snd] in *. inversion Hp; subst.
+      * left. split; [reflexivity|]. rewrite Hskp in Hk. injection Hk as <-.
+        split; [split; [split; reflexivity|unfold zat; cbn [lpos]; lia]|unfold zat; cbn [lpos]; lia].
+      * exfalso. rewrite (btmpl_at_zat c d l i Hc Htb Hi ltac:(lia)) in Hat. congruence.
+      * destruct (btmpl_here c d l i e Hc Hi ltac:(lia) H0) as (_ & Hske & He). rewrite Hske in Hk. injection Hk as <-.
+        right. exists e, it1, q1, sk1. split; [reflexivity|]. split; [lia|assumption].
+  - intros s h1 x HI Hat Hx. unfold I in *. cbn [fst snd] in *.
+    destruct HI as [(Hh & Hs & Hqs)|(i & it1 & q1 & sk1 & -> & Hi0 & Hp)].
+    + pose proof (xml_fwd raw s x Hx) as Hf. destruct x as [s'|r]; cbn [fst snd].
+      * left. split; [exact Hh|]. split; [eapply samele_trans; eauto|destruct Hf; lia].
+      * split; [exact Hh|]. destruct Hf as [_ Hf]. lia.
+    + unfold xml_cur in *. cbn [fst snd] in *. inversion Hp; subst.
+      * exfalso. unfold tmpl_at in Hat. rewrite (has_delims_true c Htb), Hatp in Hat. discriminate.
+      * destruct (xml_step_zat raw d l i it1 q1 sk1 j it' q' sk' Hi Hi0 H1) as (Hb & Hj1 & Hj2). rewrite Hb in Hx. injection Hx as <-.
+        right. exists (i + j), it', q', sk'. split; [reflexivity|]. split; [lia|assumption].
+      * exfalso. destruct (btmpl_here c d l i e Hc Hi ltac:(lia) H0) as (Hate & _). unfold tmpl_at in Hat. rewrite (has_delims_true c Htb), Hate in Hat. discriminate.
+  - unfold I. cbn [fst snd]. right. exists a, it0, q0, sk0. split; [reflexivity|]. split; [exact Ha|exact Hpath].
+Qed.
+
+(* the name of a start tag, as shiftStartTag reads it with delimiters configured *)
+Definition stag_plain (c : cfg) (d : list Z) (i : Z) : Prop :=
+  0 <= i < len d /\ prefixb (tb c) (skipz i d) = false /\ is_ws (getz d i) = false /\ getz d i <> 62 /\
+  (getz d i = 47 -> getz d (i + 1) <> 62).
+Definition stag_stop (c : cfg) (d : list Z) (n : Z) : Prop :=
+  n = len d \/
+  (0 <= n < len d /\ (prefixb (tb c) (skipz n d) = true \/ is_ws (getz d n) = true \/ getz d n = 62 \/ (getz d n = 47 /\ getz d (n + 1) = 62))).
+
+Lemma starttag_loop_c c d l a n : cfg_ok c -> tb c <> [] -> html_inv d l -> lpos (lz l) <= a <= n -> n <= len d ->
+  (forall i, a <= i < n -> stag_plain c d i) -> stag_stop c d n ->
+  loop (fuel_of (zat l a)) (starttag_body c) (zat l a) = Ok (zat l n).
+Proof.
+  intros Hc Htb Hi Ha Hn Hplain Hstop. pose proof Hi as (_ & Hlen & _). pose proof (inv_pos0 d l Hi) as H0.
+  assert (Hmv : forall i, mv (zat l a) i = zat l (a + i)) by (intros i; reflexivity).
+  apply (loop_scan _ (zat l a) (n - a)); [lia| | |unfold fuel_of, zat, lx_len in *; cbn [lbuf lpos]; lia].
+  - intros i Hir. rewrite !Hmv. destruct (Hplain (a + i) ltac:(lia)) as ((Hi0 & Hi1) & Hnp & Hw & H62 & H47).
+    unfold starttag_body. rewrite (zat_pkr d l (a + i) 0 Hi) by lia. rewrite Z.add_0_r. cbn [rbind].
+    unfold is_ws in Hw. apply orb_false_iff in Hw. destruct Hw as [Hw H12]. apply orb_false_iff in Hw. destruct Hw as [Hw H13].
+    apply orb_false_iff in Hw. destruct Hw as [Hw H10]. apply orb_false_iff in Hw. destruct Hw as [H32 H9].
+    rewrite H32, H9, H10, H13, H12.
+    replace (getz d (a + i) =? 62) with false by (symmetry; apply Z.eqb_neq; exact H62). cbn [orb].
+    unfold eof0. rewrite (at_end_zat d l (a + i) Hi Hi1), andb_false_r.
+    rewrite (tmpl_at_zat c d l (a + i) Hc Htb Hi ltac:(lia)), Hnp.
+    destruct (getz d (a + i) =? 47) eqn:E47.
+    + rewrite (zat_pkr d l (a + i) 1 Hi) by lia. cbn [rbind].
+      replace (getz d (a + i + 1) =? 62) with false by (symmetry; apply Z.eqb_neq; apply H47; apply Z.eqb_eq; exact E47).
+      cbn [rbind]. replace (a + (i + 1)) with (a + i + 1) by lia. reflexivity.
+    + cbn [rbind]. replace (a + (i + 1)) with (a + i + 1) by lia. reflexivity.
+  - rewrite Hmv. replace (a + (n - a)) with n by lia. unfold starttag_body.
+    rewrite (zat_pkr d l n 0 Hi) by lia. rewrite Z.add_0_r. cbn [rbind].
+    destruct Hstop as [->|((Hn0 & Hn1) & Hs)].
+    + assert (G : getz d (len d) = 0) by (unfold getz; rewrite (proj2 (peekz_none_iff d (len d))) by lia; reflexivity).
+      rewrite G. cbn [Z.eqb orb rbind]. unfold eof0. cbn [Z.eqb andb].
+      replace (at_end (zat l (len d))) with true by (symmetry; unfold at_end, zat, lx_len in *; cbn [lbuf lpos]; apply Z.leb_le; lia).
+      reflexivity.
+    + rewrite (tmpl_at_zat c d l n Hc Htb Hi ltac:(lia)).
+      destruct ((getz d n =? 32) || (getz d n =? 62)) eqn:E1; [reflexivity|]. cbn [rbind].
+      destruct (getz d n =? 47) eqn:E47.
+      * rewrite (zat_pkr d l n 1 Hi) by lia. cbn [rbind].
+        destruct (getz d (n + 1) =? 62) eqn:E2; [reflexivity|].
+        destruct ((getz d n =? 9) || (getz d n =? 10) || (getz d n =? 13) || (getz d n =? 12) || eof0 (zat l n) (getz d n)) eqn:E3; [reflexivity|].
+        cbn [rbind]. destruct Hs as [->|[Hw|[E|[_ E]]]]; [reflexivity| | |].
+        -- exfalso. apply Z.eqb_eq in E47. rewrite E47 in Hw. discriminate.
+        -- exfalso. apply Z.eqb_eq in E47. lia.
+        -- exfalso. apply Z.eqb_neq in E2. lia.
+      * cbn [rbind].
+        destruct ((getz d n =? 9) || (getz d n =? 10) || (getz d n =? 13) || (getz d n =? 12) || eof0 (zat l n) (getz d n)) eqn:E3; [reflexivity|].
+        cbn [rbind]. destruct Hs as [->|[Hw|[E|[E _]]]]; [reflexivity| | |].
+        -- exfalso. unfold is_ws in Hw. apply orb_false_iff in E1. destruct E1 as [E32 _].
+           apply orb_false_iff in E3. destruct E3 as [E3 _]. apply orb_false_iff in E3. destruct E3 as [E3 E12].
+           apply orb_false_iff in E3. destruct E3 as [E3 E13]. apply orb_false_iff in E3. destruct E3 as [E9 E10].
+           rewrite E32, E9, E10, E13, E12 in Hw. discriminate.
+        -- exfalso. apply orb_false_iff in E1. destruct E1 as [_ E62]. apply Z.eqb_neq in E62. lia.
+        -- exfalso. apply Z.eqb_neq in E47. lia.
+Qed.
+
+(* what the two loops of shiftXML return *)
+Lemma xml_loop_post c raw fuel z0 it q sk h rh :
+  loop fuel (with_tmpl c xml_cur xml_setc (xml_body raw)) (z0, it, q, sk, h) = Ok rh ->
+  samele z0 (sum_cur (fst rh)) /\ (forall z', fst rh = inr z' -> pk z' 0 = Some 0).
+Proof.
+  intros H.
+  refine (with_tmpl_inv2 c xml_cur xml_setc (fun sh => samele z0 (xml_cur (fst sh)))
+            (fun r : (lx + lx) * bool => samele z0 (sum_cur (fst r)) /\ (forall z', fst r = inr z' -> pk z' 0 = Some 0))
+            (xml_body raw) _ _ fuel _ rh _ H).
+  - intros s h1 z' HI _ Hk. cbn [fst] in *. unfold xml_setc, xml_cur in *. cbn [fst]. eapply samele_trans; [exact HI|]. exact (tmpl_skip_run _ _ _ Hk).
+  - intros s h1 x HI _ Hx. cbn [fst] in *. pose proof (xml_fwd raw s x Hx) as Hf. destruct x as [s'|r]; cbn [fst].
+    + eapply samele_trans; eauto.
+    + split; [eapply samele_trans; eauto|]. intros z' ->.
+      destruct s as [[[z it1] q1] sk1]. unfold xml_body in Hx. unfold pkr at 1 in Hx.
+      destruct (pk z 0) as [c0|] eqn:Ep; cbn [opt_res rbind] in Hx; try discriminate.
+      destruct (negb (sk1 =? 0) && negb (c0 =? 0)).
+      { match type of Hx with rbind ?e _ = _ => destruct e as [a| |] end; cbn [rbind] in Hx; try discriminate.
+        destruct a; [discriminate|].
+        match type of Hx with rbind ?e _ = _ => destruct e as [b| |] end; cbn [rbind] in Hx; try discriminate.
+        destruct b; discriminate. }
+      destruct (negb (q1 =? 0) && negb (c0 =? 0)); [discriminate|].
+      destruct (it1 && negb (c0 =? 0)); [discriminate|].
+      destruct (c0 =? 60).
+      { destruct (pkr z 1) as [c1| |]; cbn [rbind] in Hx; try discriminate.
+        destruct (negb (c1 =? 47)).
+        - destruct (at_ z [60; 33; 45; 45]) as [a1| |]; cbn [rbind] in Hx; try discriminate.
+          destruct a1; [discriminate|].
+          destruct (at_ z [60; 33; 91; 67; 68; 65; 84; 65; 91]) as [a2| |]; cbn [rbind] in Hx; try discriminate.
+          destruct a2; [discriminate|]. destruct (c1 =? 63); discriminate.
+        - destruct (letters_loop (mv z 2)) as [z2| |]; cbn [rbind] in Hx; try discriminate.
+          destruct (hash_lexeme_from z2 (mark z + 2)) as [hh| |]; cbn [rbind] in Hx; try discriminate.
+          destruct (hh =? raw); discriminate. }
+      destruct (c0 =? 0) eqn:E0; [|discriminate]. injection Hx as <-. apply Z.eqb_eq in E0. subst c0. exact Ep.
+  - cbn [fst]. unfold xml_cur. cbn [fst]. apply samele_refl.
+Qed.
+
+Lemma xml_close_post c fuel z0 h rh : loop fuel (with_tmpl_lx c xml_close_body) (z0, h) = Ok rh ->
+  samele z0 (sum_cur (fst rh)) /\ (forall z', fst rh = inr z' -> pk z' 0 = Some 0) /\ (h = true -> snd rh = true).
+Proof.
+  intros H. unfold with_tmpl_lx in H.
+  refine (with_tmpl_inv2 c (fun z : lx => z) (fun _ z' => z') (fun sh => samele z0 (fst sh) /\ (h = true -> snd sh = true))
+            (fun r : (lx + lx) * bool => samele z0 (sum_cur (fst r)) /\ (forall z', fst r = inr z' -> pk z' 0 = Some 0) /\ (h = true -> snd r = true))
+            xml_close_body _ _ fuel _ rh _ H).
+  - intros s h1 z' [HI _] _ Hk. cbn [fst snd] in *. split; [|reflexivity]. eapply samele_trans; [exact HI|]. exact (tmpl_skip_run _ _ _ Hk).
+  - intros s h1 x [HI Hh] _ Hx. cbn [fst snd] in *. pose proof (xml_close_fwd s x Hx) as Hf. destruct x as [s'|r]; cbn [fst snd].
+    + split; [eapply samele_trans; eauto|exact Hh].
+    + split; [eapply samele_trans; eauto|]. split; [|exact Hh]. intros z' ->.
+      unfold xml_close_body in Hx. unfold pkr at 1 in Hx. destruct (pk s 0) as [c0|] eqn:Ep; cbn [opt_res rbind] in Hx; try discriminate.
+      destruct (c0 =? 62); [discriminate|]. destruct (c0 =? 0) eqn:E0; [|discriminate]. injection Hx as <-. apply Z.eqb_eq in E0. subst c0. exact Ep.
+  - cbn [fst snd]. split; [apply samele_refl|tauto].
+Qed.
+
+(* with no NUL byte in the rest of the input, a cursor that sees 0 is at the end *)
+Lemma nul_is_end d l z' : binv d (lz l) -> samele (lz l) z' -> pk z' 0 = Some 0 ->
+  (forall i, lpos (lz l) <= i < len d -> getz d i <> 0) -> at_end z' = true.
+Proof.
+  intros Hi [Hs Hle] Hp Hnul. pose proof Hi as (Hwl & Hlen & _).
+  assert (Hp0 : 0 <= lpos (lz l)) by (destruct Hwl as (_ & ? & _); lia).
+  pose proof (same_zat l z' Hs) as Ez. remember (lpos z') as a eqn:Ea. clear Ea. subst z'.
+  unfold at_end. apply Z.leb_le. unfold zat at 1 2. cbn [lbuf lpos]. unfold lx_len in Hlen |- *. cbn [lbuf].
+  destruct (Z.lt_ge_cases a (len d)) as [Hlt|Hge]; [exfalso|unfold lx_len in *; lia].
+  destruct (bzat_wf d l a Hi ltac:(lia)) as [Hw Hrem].
+  destruct (peekz_in d a ltac:(lia)) as (x & Hx & _).
+  assert (Hpx : peekz (skipz a d) 0 = Some x) by (rewrite peekz_skipz by lia; rewrite Z.add_0_r; exact Hx).
+  destruct (reads_peek (zat l a) _ 0 x (conj Hw Hrem) Hpx) as [Hpk _].
+  rewrite Hpk in Hp. injection Hp as ->. apply (Hnul a ltac:(lia)). unfold getz. rewrite Hx. reflexivity.
+Qed.
+
+(* svg / math / xml: '<' + the element's name at the cursor, then content as shiftXML reads it up to a region *)
+Lemma html_template_xml_proof : forall c d l n h p q, cfg_ok c -> tb c <> [] -> html_inv d l -> intag l = false -> rawtag l = 0 -> lerr l = false ->
+  let a := lpos (lz l) in
+  prefixb (tb c) (skipz a d) = false -> getz d a = 60 -> is_letter (getz d (a + 1)) = true -> a + 1 <= n <= len d ->
+  (forall i, a + 1 <= i < n -> stag_plain c d i) -> stag_stop c d n ->
+  to_hash (map lower (slice d (a + 1) n)) = Ok h -> is_xml_hash h = true ->
+  (forall i, n <= i < len d -> getz d i <> 0) ->
+  xml_reach c h d n true 0 0 p -> is_region c d p q ->
+  n <= p /\ exists ty v l', next c l = Ok (ty, Some v, l') /\ lhas l' = true /\ so v = a /\ q <= so v + sn v.
+Proof.
+  intros c d l n h p q Hc Htb Hi Hit Hraw Herr a Hnp G0 G1 Han Hplain Hstop Hh Hx Hnul Hreach Hreg.
+  pose proof Hi as (Hl & Hlen & Hsuf & _). pose proof (lwf_clean l Hl Hit) as Hcl. pose proof (inv_pos0 d l Hi) as H0.
+  assert (R1 : 0 <= a + 1 < len d) by (apply (getz_nz_range d (a + 1) (getz d (a + 1)) eq_refl); intros E; rewrite E in G1; discriminate).
+  destruct (html_total_step_proof c d l Hc Hi) as (ty & tk & l' & Hn & Hi'). pose proof Hn as Hn0.
+  unfold next in Hn. cbn [lz rawtag intag lerr ltext lattr lhas] in Hn. rewrite Hit, Hraw in Hn. cbn [Z.eqb negb] in Hn.
+  unfold next_content in Hn. cbn [lz rawtag intag lerr ltext lattr lhas] in Hn.
+  rewrite (text_dispatch_c c d l (getz d (a + 1)) Hc Htb Hi Hcl G0 eq_refl ltac:(fold a; lia) Hnp ltac:(tauto)) in Hn.
+  rewrite G1 in Hn. cbn [rbind] in Hn.
+  replace (mv (lz l) 1) with (zat l (a + 1)) in Hn by (unfold zat, mv, a; reflexivity).
+  unfold shift_starttag in Hn. cbn [lz rawtag intag lerr ltext lattr lhas] in Hn.
+  rewrite (starttag_loop_c c d l (a + 1) n Hc Htb Hi ltac:(unfold a in *; lia) ltac:(lia) Hplain Hstop) in Hn. cbn [rbind] in Hn.
+  destruct (zat_wf d l n Hi ltac:(unfold a in *; lia)) as [Hwn Hremn].
+  rewrite lexeme_from_spec in Hn by (exact Hwn || (unfold zat; cbn [lpos lstart]; rewrite Hcl; fold a; lia)). cbn [rbind] in Hn.
+  set (t := mkSl (a + 1) (n - a - 1)).
+  replace (mkSl (lstart (zat l n) + 1) (lpos (zat l n) - lstart (zat l n) - 1)) with t in Hn
+    by (unfold t, zat; cbn [lstart lpos]; rewrite Hcl; fold a; f_equal; lia).
+  assert (Hbl : len (lbuf (lz l)) = len d + 1) by (unfold lx_len in Hlen; lia).
+  assert (Hbytes : view_bytes (lbuf (lx_lower (zat l n) t)) t = map lower (slice d (a + 1) n)).
+  { unfold lx_lower. cbn [lbuf]. unfold zat at 1. cbn [lbuf].
+    rewrite view_bytes_lower_view by (unfold t; cbn [so sn]; lia). f_equal.
+    unfold view_bytes, t. cbn [so sn]. replace (a + 1 + (n - a - 1)) with n by lia.
+    apply slice_ext; [lia|lia|lia|]. intros i Hir. rewrite Hsuf by (fold a; lia). apply peekz_app_l. lia. }
+  rewrite Hbytes, Hh in Hn. cbn [rbind] in Hn.
+  assert (Hrw : is_raw_hash h = true).
+  { unfold is_raw_hash, is_xml_hash in *. apply orb_true_iff in Hx. destruct Hx as [Hx|Hx]; [apply orb_true_iff in Hx; destruct Hx as [Hx|Hx]|];
+      rewrite Hx; rewrite ?orb_true_r; reflexivity. }
+  rewrite Hrw, Hx, Herr in Hn.
+  set (z2 := lx_lower (zat l n) t) in *.
+  destruct (shift_xml c h z2 false false) as [[[[dv z3] e] hx]| |] eqn:Ex; cbn [rbind] in Hn; try discriminate.
+  (* the base lexer after the name *)
+  set (l2 := mkL z2 0 false false None None false).
+  assert (Hrd : reads z2 (skipz n d)).
+  { apply reads_lower; [split; assumption|unfold t; cbn [so]; lia|unfold t; cbn [sn]; lia|unfold t, zat; cbn [so sn lpos]; lia]. }
+  assert (Hb2 : binv d (lz l2)).
+  { cbn [l2 lz]. destruct Hrd as [Hw2 Hr2]. split; [exact Hw2|]. split; [|exact Hr2].
+    unfold z2. rewrite lx_lower_len; [unfold lx_len, zat in *; cbn [lbuf]; exact Hlen|exact Hwn|unfold t; cbn [so]; lia|unfold t; cbn [sn]; lia|].
+    unfold t, lx_len, zat; cbn [so sn lbuf]. lia. }
+  assert (Hz2 : z2 = zat l2 n) by reflexivity.
+  assert (Hl2 : lpos (lz l2) = n) by reflexivity.
+  assert (Hnul2 : forall i, lpos (lz l2) <= i < len d -> getz d i <> 0) by (rewrite Hl2; exact Hnul).
+  assert (Hfin : e = false /\ hx = true /\ q <= lpos z3).
+  { unfold shift_xml in Ex.
+    destruct (loop (fuel_of z2) (with_tmpl c xml_cur xml_setc (xml_body h)) (z2, true, 0, 0, false)) as [rh| |] eqn:El; cbn [rbind] in Ex; try discriminate.
+    rewrite Hz2 in El at 2.
+    destruct (xreach_done c h d l2 p q _ n true 0 0 false rh Hc Htb Hb2 Hreg ltac:(rewrite Hl2; lia) Hreach El) as [Hh1 Hq1].
+    destruct (xml_loop_post c h _ _ _ _ _ _ rh El) as [Hs1 Hn1]. rewrite <- Hz2 in Hs1.
+    destruct rh as [[z'|z'] h1]; cbn [fst snd sum_cur] in *.
+    - destruct (loop (fuel_of z') (with_tmpl_lx c xml_close_body) (z', h1)) as [rh2| |] eqn:El2; cbn [rbind] in Ex; try discriminate.
+      destruct (xml_close_post c _ _ _ rh2 El2) as (Hs2 & Hn2 & Hh2).
+      assert (Hs02 : samele (lz l2) (sum_cur (fst rh2))) by (eapply samele_trans; [exact Hs1|exact Hs2]).
+      destruct rh2 as [[z''|z''] h2]; cbn [fst snd sum_cur] in *;
+        (destruct (shiftv z'') as [s| |] eqn:Es; cbn [rbind] in Ex; try discriminate; injection Ex as <- <- <- <-;
+         rewrite (shiftv_pos _ _ Es)).
+      + split; [reflexivity|]. split; [apply Hh2; exact Hh1|]. destruct Hs2 as [_ Hs2]. lia.
+      + rewrite (nul_is_end d l2 z'' Hb2 Hs02 (Hn2 z'' eq_refl) Hnul2). split; [reflexivity|]. split; [apply Hh2; exact Hh1|]. destruct Hs2 as [_ Hs2]. lia.
+    - destruct (shiftv z') as [s| |] eqn:Es; cbn [rbind] in Ex; try discriminate. injection Ex as <- <- <- <-.
+      rewrite (shiftv_pos _ _ Es). rewrite (nul_is_end d l2 z' Hb2 Hs1 (Hn1 z' eq_refl) Hnul2). split; [reflexivity|]. split; [exact Hh1|exact Hq1]. }
+  destruct Hfin as (-> & -> & Hq3). injection Hn as <- <- <-.
+  split; [exact (proj1 (xml_reach_le c h d l2 n true 0 0 p Hc Hb2 ltac:(rewrite Hl2; lia) Hreach))|].
+  eexists _, _, _. split; [exact Hn0|]. cbn [lhas]. split; [reflexivity|].
+  apply (finish_token c d l _ _ _ q Hc Hi Hn0); [destruct (h =? html_hash_Svg); [discriminate|destruct (h =? html_hash_Math); discriminate]|
+                                                  destruct (h =? html_hash_Svg); [discriminate|destruct (h =? html_hash_Math); discriminate]|].
+  cbn [lz]. exact Hq3.
+Qed.
+
 (* ---- both halves in one statement -------------------------------------------------------------------------------------- *)
 (* The positions p at which the call Next(l) looks for an opening delimiter, by context (each constructor is the
    shape of the input between the cursor and p).  Not looked at: the letters jumped over after '<' or "</" in raw
@@ -942,7 +1333,12 @@ Inductive looked (c : cfg) (d : list Z) (l : lexer) (p : Z) : Prop :=
     (forall i, lpos (lz l) <= i < p -> prefixb (tb c) (skipz i d) = false) -> looked c d l p
 | lk_endtag : intag l = false -> rawtag l = 0 -> prefixb (tb c) (skipz (lpos (lz l)) d) = false ->
     getz d (lpos (lz l)) = 60 -> getz d (lpos (lz l) + 1) = 47 -> is_letter (getz d (lpos (lz l) + 2)) = true -> lpos (lz l) + 2 <= p ->
-    (forall i, lpos (lz l) + 2 <= i < p -> gt_plain c d i) -> looked c d l p.
+    (forall i, lpos (lz l) + 2 <= i < p -> gt_plain c d i) -> looked c d l p
+| lk_xml n h : intag l = false -> rawtag l = 0 -> lerr l = false -> prefixb (tb c) (skipz (lpos (lz l)) d) = false ->
+    getz d (lpos (lz l)) = 60 -> is_letter (getz d (lpos (lz l) + 1)) = true -> lpos (lz l) + 1 <= n <= len d ->
+    (forall i, lpos (lz l) + 1 <= i < n -> stag_plain c d i) -> stag_stop c d n ->
+    to_hash (map lower (slice d (lpos (lz l) + 1) n)) = Ok h -> is_xml_hash h = true ->
+    (forall i, n <= i < len d -> getz d i <> 0) -> xml_reach c h d n true 0 0 p -> looked c d l p.
 
 Lemma html_template_exact_proof : forall c d l, cfg_ok c -> tb c <> [] -> html_inv d l ->
   (forall p q, looked c d l p -> is_region c d p q ->
@@ -971,4 +1367,28 @@ Proof.
   - apply (Hpack q CommentT); [|lia]. eapply html_template_bogus_slash_proof; eauto.
   - apply (Hpack q TextT); [|lia]. eapply html_template_plaintext_proof; eauto.
   - apply (Hpack q EndTagT); [|lia]. eapply html_template_endtag_proof; eauto.
+  - destruct (html_template_xml_proof c d l n h p q Hc Htb Hi H H0 H1 H2 H3 H4 H5 H6 H7 H8 H9 H10 H11 Hreg) as (Hle & ty & v & l' & Hn & Hh & Hs & Hq).
+    exists ty, v, l'. split; [exact Hn|]. split; [exact Hh|]. split; [lia|exact Hq].
+Qed.
+
+(* ---- the former witnesses as instances: svg content --------------------------------------------------------------------- *)
+Lemma getz_nz_all (d : list Z) : forallb (fun x => negb (x =? 0)) d = true -> forall i, 0 <= i < len d -> getz d i <> 0.
+Proof.
+  intros H i Hi. destruct (peekz_in d i Hi) as (x & Hx & Hin). unfold getz. rewrite Hx.
+  rewrite forallb_forall in H. specialize (H x Hin). apply negb_true_iff, Z.eqb_neq in H. exact H.
+Qed.
+
+(* <svg>{{"</svg>"}}</svg> : position 5 is looked at (the '>' of the start tag is one step of shiftXML) *)
+Example html_template_xml_looked :
+  let d := [60;115;118;103;62;123;123;34;60;47;115;118;103;62;34;125;125;60;47;115;118;103;62] in
+  looked go_tmpl d (new_lexer d) 5 /\ is_region go_tmpl d 5 17.
+Proof.
+  intros d. split; [|split; [lia|split; [discriminate|split; vm_compute; reflexivity]]].
+  apply (lk_xml go_tmpl d (new_lexer d) 5 4 html_hash_Svg); try reflexivity.
+  - cbn. lia.
+  - intros i Hi. cbn in Hi. assert (Hc : i = 1 \/ i = 2 \/ i = 3) by lia.
+    destruct Hc as [->|[->| ->]]; (split; [cbn; lia|]; split; [reflexivity|]; split; [reflexivity|]; split; vm_compute; intros E; discriminate).
+  - right. split; [cbn; lia|]. right. right. left. reflexivity.
+  - intros i Hi. apply getz_nz_all; [reflexivity|lia].
+  - eapply (xr_step go_tmpl html_hash_Svg d 4 true 0 0 1 false 0 0 5); [reflexivity|reflexivity|apply xr_refl].
 Qed.
